@@ -110,6 +110,10 @@ class Parser:
                 CellTranslator.translate_file(excel, context)
         except RecursionError:
             raise E2PyclParserException('The formulas are too long or depend on each other too deeply to be translated.')
+        except (AttributeError, IndexError, KeyError, TypeError, ValueError):
+            # a formula the grammar accepts but the translators have no meaning for (an open area like A1:A,
+            # a name that is not a cell like TRUE1)
+            raise E2PyclParserException('The workbook contains a formula that cannot be translated.')
 
         self._translation = context.build_class()
 
